@@ -116,6 +116,16 @@ def R.bind (r : R) (f : Sess → R) : R :=
   | some _ => r
   | none => f r.1
 
+/-- the model abstains from here on when `c` holds (set-iteration order decides) -/
+def markNondetIf (c : Bool) (σ : Sess) : Sess := if c then { σ with nondet := true } else σ
+
+/-- an exception in the middle of a loop over a *set* of `n > 1` states leaves an
+    order-dependent part of the work done -/
+def failNondet (c : Bool) (r : R) : R :=
+  match r with
+  | (σ, some e) => fail (markNondetIf c σ) e
+  | r => r
+
 /-! ### objects -/
 
 def getO (σ : Sess) (o : Oid) : Obj := σ.objs.getD o {}
@@ -366,12 +376,9 @@ def dupIdent (σ : Sess) (os : List Oid) : Bool :=
 
 /-- `Session._register_persistent(states)` -/
 def registerPersistent (σ : Sess) (os : List Oid) : R :=
-  let σ := if dupIdent σ os then { σ with nondet := true } else σ
+  let σ := markNondetIf (dupIdent σ os) σ
   -- an exception in the middle of the loop leaves a set-order dependent part registered
-  let rr : R := match registerKeys σ os with
-    | (σ, some e) => fail (if os.length > 1 then { σ with nondet := true } else σ) e
-    | r => r
-  rr.bind fun σ =>
+  (failNondet (decide (os.length > 1)) (registerKeys σ os)).bind fun σ =>
   let σ := os.foldl (fun σ o => setO σ o commitAllObj) σ
   let σ := os.foldl registerAlteredOne σ
   let inNew := os.filter (fun o => σ.new.contains o)
@@ -411,12 +418,9 @@ def restoreSnapshot (σ : Sess) (dirtyOnly : Bool) : R :=
                    | [] => []
                    | t' :: _ => t'.tdel
     let dels := (tdelNow ++ σ.deleted).eraseDups
-    let σ := if dupKeys σ dels then { σ with nondet := true } else σ
+    let σ := markNondetIf (dupKeys σ dels) σ
     -- an exception in the middle of this loop leaves a set-order dependent part reverted
-    let rr : R := match revertDeletions σ dels with
-      | (σ, some e) => fail (if dels.length > 1 then { σ with nondet := true } else σ) e
-      | r => r
-    rr.bind fun σ =>
+    (failNondet (decide (dels.length > 1)) (revertDeletions σ dels)).bind fun σ =>
     let tdirty := t.tdirty
     let σ := (σ.imap.map (·.2)).foldl (fun σ o =>
         if !dirtyOnly || (getO σ o).modified || tdirty.contains o then setO σ o expireObj else σ) σ
@@ -548,19 +552,10 @@ def deleteParams : Sess → List Oid → List Nat → Sess × Except Err (List N
     | (σ, .error e) => (σ, .error e)
     | (σ, .ok v) => deleteParams σ os (acc ++ [v])
 
-/-- `UOWTransaction.execute()` + `finalize_flush_changes()` for the one mapper;
-    `proc` = new ∪ dirty − deleted, `dels` = session._deleted -/
-def flushExecute (σ : Sess) (proc dels : List Oid) : R :=
-  -- _sort_states: pending by insert_order, then persistent by primary key
-  let pend := sortBy (fun o => (getO σ o).ins) (proc.filter (fun o => (getO σ o).key.isNone))
-  let pers := sortBy (fun o => (getO σ o).key.getD 0) (proc.filter (fun o => (getO σ o).key.isSome))
-  let tie := (pend.map (fun o => (getO σ o).ins)).eraseDups.length != pend.length
-  match organize { σ := σ, isdel := dels, listonly := [], upd := [], ins := [] } (pend ++ pers) with
-  | (st, some e) => fail st.σ e
-  | (st, none) =>
-  let σ := if tie && st.rowSwitched then { st.σ with nondet := true } else st.σ
-  -- UPDATEs first
-  let cmds := st.upd.map (fun o => updateCmd (getO σ o))
+/-- `_save_obj` after organising: the UPDATE batch, then the INSERT batch (only the
+    database and the statement counter change) -/
+def flushDml (σ : Sess) (upd ins : List Oid) : R :=
+  let cmds := upd.map (fun o => updateCmd (getO σ o))
   match cmds.mapM id with
   | .error e => fail σ e
   | .ok cs =>
@@ -571,22 +566,36 @@ def flushExecute (σ : Sess) (proc dels : List Oid) : R :=
     | .ok (db, matched) =>
       if matched != us.length then fail { σ with db := db } .stale else
       let σ := { σ with db := db }
-      -- INSERTs
-      let ks := st.ins.filterMap (fun o => (getO σ o).pk)
+      let ks := ins.filterMap (fun o => (getO σ o).pk)
       let σ := if ks.isEmpty then σ else { σ with sql := σ.sql + 1 }
       match runInserts σ.db ks with
       | .error e => fail σ e
-      | .ok db =>
-        let σ := { σ with db := db }
-        -- DELETEs: isdelete ∧ ¬listonly, persistent sort
-        let ds := sortBy (fun o => (getO σ o).key.getD 0) (dels.filter (fun o => !st.listonly.contains o))
-        match deleteParams σ ds [] with
-        | (σ, .error e) => fail σ e
-        | (σ, .ok vs) =>
-          let σ := if vs.isEmpty then σ else { σ with sql := σ.sql + 1, db := σ.db.filter (fun r => !vs.contains r) }
-          -- finalize_flush_changes
-          let σ := removeNewlyDeleted σ dels
-          registerPersistent σ proc
+      | .ok db => ok { σ with db := db }
+
+/-- `_delete_obj`: parameters (may SELECT to unexpire), then the DELETE batch -/
+def flushDeletes (σ : Sess) (ds : List Oid) : R :=
+  match deleteParams σ ds [] with
+  | (σ, .error e) => fail σ e
+  | (σ, .ok vs) =>
+    ok (if vs.isEmpty then σ else { σ with sql := σ.sql + 1, db := σ.db.filter (fun r => !vs.contains r) })
+
+/-- `UOWTransaction.execute()` + `finalize_flush_changes()` for the one mapper;
+    `proc` = new ∪ dirty − deleted, `dels` = session._deleted -/
+def flushExecute (σ : Sess) (proc dels : List Oid) : R :=
+  -- _sort_states: pending by insert_order, then persistent by primary key
+  let pend := sortBy (fun o => (getO σ o).ins) (proc.filter (fun o => (getO σ o).key.isNone))
+  let pers := sortBy (fun o => (getO σ o).key.getD 0) (proc.filter (fun o => (getO σ o).key.isSome))
+  let tie := (pend.map (fun o => (getO σ o).ins)).eraseDups.length != pend.length
+  match organize { σ := σ, isdel := dels, listonly := [], upd := [], ins := [] } (pend ++ pers) with
+  | (st, some e) => fail st.σ e
+  | (st, none) =>
+    -- UPDATEs first, then INSERTs
+    (flushDml (markNondetIf (tie && st.rowSwitched) st.σ) st.upd st.ins).bind fun σ =>
+    -- DELETEs: isdelete ∧ ¬listonly, persistent sort
+    (flushDeletes σ (sortBy (fun o => (getO σ o).key.getD 0)
+                       (dels.filter (fun o => !st.listonly.contains o)))).bind fun σ =>
+    -- finalize_flush_changes
+    registerPersistent (removeNewlyDeleted σ dels) proc
 
 /-- failure path of `_flush`: `transaction.rollback(_capture_exception=True)` on the flush
     subtransaction; the nearest boundary (head of `txns`) is rolled back and left DEACTIVE -/
@@ -599,10 +608,10 @@ def flushFailed (σ : Sess) : Sess :=
     -- an exception raised by `_restore_snapshot` here leaves the flush subtransaction on
     -- the stack; the model abstains from that point (`nondet`)
     match restoreSnapshot σ t.nested with
-    | (σ, some _) => { σ with nondet := true }
+    | (σ, some _) => markNondetIf true σ
     | (σ, none) =>
       match (if isClean σ then ok σ else restoreSnapshot σ t.nested) with
-      | (σ, some _) => { σ with nondet := true }
+      | (σ, some _) => markNondetIf true σ
       | (σ, none) => updTxn σ (fun t => { t with rbexc := true })
 
 /-- `Session.flush()` -/
@@ -733,25 +742,30 @@ def loadNew (σ : Sess) (k : Nat) : Sess × Oid :=
                     imap := σ.imap ++ [(k, o)] }
   (emit σ .l2s o, o)
 
+/-- what precedes every ORM SELECT: the transaction must be ACTIVE
+    (`_connection_for_bind`), autoflush if enabled, one statement -/
+def sqlPrelude (σ : Sess) (af : Bool) : R :=
+  (requireActive σ).bind fun σ =>
+  (if af then autoflush σ else ok σ).bind fun σ =>
+  ok { σ with sql := σ.sql + 1 }
+
+/-- `loading._instance` for the row with primary key `k`, if the SELECT returned one -/
+def loadRow (σ : Sess) (k : Nat) : Sess × Option Oid :=
+  if σ.db.contains k then
+    match imLookup σ k with
+    | some o =>
+      -- existing identity: partial population of unloaded attributes
+      let ob := getO σ o
+      (if ob.pk.isNone && ob.cpk.isNone then setO σ o (fun ob => loadedObj ob k) else σ, some o)
+    | none => let (σ, o) := loadNew σ k; (σ, some o)
+  else (σ, none)
+
 /-- SELECT by primary key `k` into the session (`_load_on_pk_identity` without
     refresh_state): result oid or none -/
 def loadByPk (σ : Sess) (k : Nat) (doAutoflush : Bool) : R × Option Oid :=
-  match requireActive σ with
+  match sqlPrelude σ doAutoflush with
   | (σ, some e) => (fail σ e, none)
-  | (σ, none) =>
-    match (if doAutoflush then autoflush σ else ok σ) with
-    | (σ, some e) => (fail σ e, none)
-    | (σ, none) =>
-      let σ := { σ with sql := σ.sql + 1 }
-      if σ.db.contains k then
-        match imLookup σ k with
-        | some o =>
-          -- existing identity: partial population of unloaded attributes
-          let ob := getO σ o
-          let σ := if ob.pk.isNone && ob.cpk.isNone then setO σ o (fun ob => loadedObj ob k) else σ
-          (ok σ, some o)
-        | none => let (σ, o) := loadNew σ k; (ok σ, some o)
-      else (ok σ, none)
+  | (σ, none) => let (σ, r) := loadRow σ k; (ok σ, r)
 
 /-- `InstanceState._load_expired` for a persistent state found in the identity map
     (`get_from_identity`): returns false when the row is gone (ObjectDeletedError) -/
@@ -759,62 +773,62 @@ def loadExpired (σ : Sess) (o : Oid) : R × Bool :=
   let k0 := (getO σ o).key
   -- `_load_scalar_attributes`: `state.session` is None → DetachedInstanceError
   if !(getO σ o).att then (fail σ .detachedInst, true) else
-  match requireActive σ with
+  match sqlPrelude σ true with
   | (σ, some e) => (fail σ e, true)
   | (σ, none) =>
-    match autoflush σ with
-    | (σ, some e) => (fail σ e, true)
-    | (σ, none) =>
-      let σ := { σ with sql := σ.sql + 1 }
-      match k0 with
-      | none => (ok σ, true)
-      | some k =>
-        if σ.db.contains k then (ok (setO σ o (fun ob => loadedObj ob k)), true)
-        else (ok σ, false)
+    match k0 with
+    | none => (ok σ, true)
+    | some k =>
+      if σ.db.contains k then (ok (setO σ o (fun ob => loadedObj ob k)), true)
+      else (ok σ, false)
 
-/-- `obj.id = v`: ScalarAttributeImpl.set with active history (primary key columns
-    always load the old value) → `_modified_event`.  `af` = session.autoflush at the time
-    (False inside merge's `no_autoflush` block). -/
-def setPk (σ : Sess) (o : Oid) (v : Nat) (af : Bool) : R :=
+/-- `AttributeImpl.get`: the loader callables run when the key is not in committed_state or
+    its committed value is NO_VALUE -/
+def firesLoader (ob : Obj) : Bool :=
+  match ob.cpk with
+  | none => true
+  | some .noValue => true
+  | some (.val _) => false
+
+/-- `old = self.get(state, dict_, PASSIVE_RETURN_NO_VALUE)` of ScalarAttributeImpl.set with
+    active history (primary key columns always load the old value) -/
+def loadOld (σ : Sess) (o : Oid) (af : Bool) : R × Old :=
   let ob := getO σ o
-  -- old = self.get(state, dict_, PASSIVE_RETURN_NO_VALUE)
-  let r : R × Old :=
-    match ob.pk with
-    | some p => (ok σ, .val (some p))
-    | none =>
-      let fire := match ob.cpk with
-                  | none => true
-                  | some .noValue => true
-                  | some (.val _) => false
-      if fire && ob.expA then
-        -- state._load_expired → load_scalar_attributes
-        if !ob.att then (fail σ .detachedInst, .noValue) else
-        if ob.key.isNone then (fail σ .invalid, .noValue) else
-        match requireActive σ with
-        | (σ, some e) => (fail σ e, .noValue)
-        | (σ, none) =>
-          match (if af then autoflush σ else ok σ) with
-          | (σ, some e) => (fail σ e, .noValue)
-          | (σ, none) =>
-            let σ := { σ with sql := σ.sql + 1 }
-            match ob.key with
-            | none => (ok σ, .noValue)
-            | some k =>
-              if σ.db.contains k then (ok (setO σ o (fun ob => loadedObj ob k)), .val (some k))
-              else (fail σ .objectDeleted, .noValue)
-      else (ok σ, .noValue)
-  match r with
+  match ob.pk with
+  | some p => (ok σ, .val (some p))
+  | none =>
+    if firesLoader ob && ob.expA then
+      -- state._load_expired → load_scalar_attributes
+      if !ob.att then (fail σ .detachedInst, .noValue) else
+      if ob.key.isNone then (fail σ .invalid, .noValue) else
+      match sqlPrelude σ af with
+      | (σ, some e) => (fail σ e, .noValue)
+      | (σ, none) =>
+        match ob.key with
+        | none => (ok σ, .noValue)
+        | some k =>
+          if σ.db.contains k then (ok (setO σ o (fun ob => loadedObj ob k)), .val (some k))
+          else (fail σ .objectDeleted, .noValue)
+    else (ok σ, .noValue)
+
+/-- `state._modified_event(dict_, attr, old)` and `dict_['id'] = v` -/
+def applySet (σ : Sess) (o : Oid) (v : Nat) (old : Old) : Sess :=
+  let ob := getO σ o
+  let hasMod := imContainsState σ o && !(modifiedStates σ).isEmpty
+  let σ := setO σ o (fun ob => { ob with cpk := if ob.cpk.isNone then some old else ob.cpk })
+  let σ :=
+    if !ob.modified then
+      let σ := setO σ o (fun ob => { ob with modified := true })
+      if ob.att && !hasMod then autobegin σ else σ
+    else σ
+  setO σ o (fun ob => { ob with pk := some v })
+
+/-- `obj.id = v`.  `af` = session.autoflush at the time (False inside merge's
+    `no_autoflush` block). -/
+def setPk (σ : Sess) (o : Oid) (v : Nat) (af : Bool) : R :=
+  match loadOld σ o af with
   | ((σ, some e), _) => fail σ e
-  | ((σ, none), old) =>
-    let ob := getO σ o
-    let hasMod := imContainsState σ o && !(modifiedStates σ).isEmpty
-    let σ := setO σ o (fun ob => { ob with cpk := if ob.cpk.isNone then some old else ob.cpk })
-    let σ :=
-      if !ob.modified then
-        let σ := setO σ o (fun ob => { ob with modified := true })
-        if ob.att && !hasMod then autobegin σ else σ
-      else σ
-    ok (setO σ o (fun ob => { ob with pk := some v }))
+  | ((σ, none), old) => ok (applySet σ o v old)
 
 /-- `Session.get(Item, k)` -/
 def get (σ : Sess) (k : Nat) : R × Option Oid :=
@@ -827,14 +841,41 @@ def get (σ : Sess) (k : Nat) : R × Option Oid :=
         loadByPk (removeNewlyDeleted σ [o]) k true
       | ((σ, some e), _) => (fail σ e, none)
       | ((σ, none), true) => (ok σ, some o)
-      | ((σ, none), false) =>
-        let σ := removeNewlyDeleted σ [o]
-        loadByPk σ k true
+      | ((σ, none), false) => loadByPk (removeNewlyDeleted σ [o]) k true
     else (ok σ, some o)
   | none => loadByPk σ k true
 
-/-- `Session.merge(instance)` (load=True) followed by the harness fix-up that gives a
-    new pending copy its primary key when the source had none loaded -/
+/-- `_merge`: locate the instance to merge onto: identity map, else `Session.get` (no
+    autoflush inside merge) -/
+def mergeFind (σ : Sess) (k : Nat) : R × Option Oid :=
+  match imLookup σ k with
+  | some m => (ok σ, some m)
+  | none => loadByPk σ k false
+
+/-- `_merge`: `merged = mapper.class_manager.new_instance(); _save_or_update_state(merged_state)`
+    when nothing was found -/
+def mergeTarget (σ : Sess) (mo : Option Oid) : R × Oid :=
+  match mo with
+  | some m => (ok σ, m)
+  | none =>
+    let m := σ.objs.length
+    (saveImpl { σ with objs := σ.objs ++ [{}] } m, m)
+
+/-- `ColumnProperty.merge` for `id`, then the harness fix-up (a pending copy without `id`
+    gets the source key) -/
+def mergeCopy (σ : Sess) (src m k : Nat) : R :=
+  let sob := getO σ src
+  let r : R := match sob.pk with
+           | some v => setPk σ m v false
+           | none =>
+             let mob := getO σ m
+             if mob.key.isSome && mob.pk.isNone then ok (setO σ m (fun ob => { ob with expA := true }))
+             else ok σ
+  r.bind fun σ =>
+  let mob := getO σ m
+  if mob.key.isNone && mob.pk.isNone then setPk σ m k true else ok σ
+
+/-- `Session.merge(instance)` (load=True) -/
 def merge (σ : Sess) (src : Oid) : R × Option Oid :=
   match autoflush σ with
   | (σ, some e) => (fail σ e, none)
@@ -846,38 +887,16 @@ def merge (σ : Sess) (src : Oid) : R × Option Oid :=
     match key with
     | .error e => (fail σ e, none)
     | .ok k =>
-      let found : R × Option Oid :=
-        match imLookup σ k with
-        | some m => (ok σ, some m)
-        | none => loadByPk σ k false
-      match found with
+      match mergeFind σ k with
       | ((σ, some e), _) => (fail σ e, none)
       | ((σ, none), mo) =>
-        let r : R × Oid × Bool :=
-          match mo with
-          | some m => (ok σ, m, false)
-          | none =>
-            let m := σ.objs.length
-            let σ := { σ with objs := σ.objs ++ [{}] }
-            (saveImpl σ m, m, true)
-        match r with
-        | ((σ, some e), _, _) => (fail σ e, none)
-        | ((σ, none), m, _) =>
+        match mergeTarget σ mo with
+        | ((σ, some e), _) => (fail σ e, none)
+        | ((σ, none), m) =>
           if m == src then (ok σ, some m) else
-          -- ColumnProperty.merge for `id`
-          let sob := getO σ src
-          let r : R := match sob.pk with
-                   | some v => setPk σ m v false
-                   | none =>
-                     let mob := getO σ m
-                     if mob.key.isSome && mob.pk.isNone then ok (setO σ m (fun ob => { ob with expA := true }))
-                     else ok σ
-          match r with
+          match mergeCopy σ src m k with
           | (σ, some e) => (fail σ e, none)
-          | (σ, none) =>
-            -- harness fix-up: a pending copy without `id` gets the source key
-            let mob := getO σ m
-            if mob.key.isNone && mob.pk.isNone then (setPk σ m k true, some m) else (ok σ, some m)
+          | (σ, none) => (ok σ, some m)
 
 /-- `make_transient(instance)` followed by `instance.id = k` (documented usage) -/
 def makeTransient (σ : Sess) (o : Oid) (k : Nat) : Sess :=
@@ -897,6 +916,41 @@ def makeTransientToDetached (σ : Sess) (o : Oid) : R :=
 def newObj (σ : Sess) (k : Nat) : Sess :=
   { σ with objs := σ.objs ++ [{ pk := some k, cpk := some .noValue, modified := true }] }
 
+/-- one row of an ORM SELECT over `Item` (`loading._instance`): the identity-map instance
+    for the row's key, or a new one; `pe` = populate_existing -/
+def instanceForRow (pe : Bool) (acc : Sess × List Oid) (k : Nat) : Sess × List Oid :=
+  let (σ, out) := acc
+  match imLookup σ k with
+  | some o =>
+    let ob := getO σ o
+    let σ := if pe then setO σ o (fun ob => loadedObj ob k)
+             else if ob.pk.isNone && ob.cpk.isNone then setO σ o (fun ob => loadedObj ob k)
+             else σ
+    (σ, out ++ [o])
+  | none => let (σ, o) := loadNew σ k; (σ, out ++ [o])
+
+/-- `session.execute(select(Item).order_by(Item.id)).scalars().all()` -/
+def queryAll (σ : Sess) (pe : Bool) : R × List Oid :=
+  match sqlPrelude σ true with
+  | (σ, some e) => (fail σ e, [])
+  | (σ, none) =>
+    let rows := σ.db.foldl (fun acc x => acc.takeWhile (· ≤ x) ++ [x] ++ acc.dropWhile (· ≤ x)) []
+    let (σ, out) := rows.foldl (instanceForRow pe) (σ, [])
+    (ok σ, out)
+
+/-- `Session.refresh(instance)` -/
+def refresh (σ : Sess) (o : Oid) : R :=
+  if !imContainsState σ o then fail σ .invalid else
+  let σ := setO σ o expireObj
+  (autoflush σ).bind fun σ =>
+  (requireActive σ).bind fun σ =>
+  let σ := { σ with sql := σ.sql + 1 }
+  match (getO σ o).key with
+  | none => fail σ .invalid
+  | some k =>
+    if σ.db.contains k then ok (setO σ o (fun ob => loadedObj ob k))
+    else fail σ .invalid
+
 /-! ### operations -/
 
 inductive Op where
@@ -904,10 +958,12 @@ inductive Op where
   | mt (o : Oid) (k : Nat) | mtd (o : Oid) | setpk (o : Oid) (k : Nat)
   | merge (o : Oid) | get (k : Nat)
   | flush | commit | rollback | nbegin | ncommit | nrollback | close | expungeAll
+  | query (pe : Bool) | refresh (o : Oid)
   deriving Repr, DecidableEq
 
-/-- one harness operation; the Option Oid is the returned instance of get/merge -/
-def step (σ : Sess) : Op → R × Option Oid
+/-- one harness operation; the second component is the returned instance list of
+    get / merge (`some [o]`, `some []` = None) and query -/
+def step (σ : Sess) : Op → R × Option (List Oid)
   | .new k => (ok (newObj σ k), none)
   | .add o => (add σ o, none)
   | .delete o => (delete σ o, none)
@@ -916,8 +972,8 @@ def step (σ : Sess) : Op → R × Option Oid
   | .mt o k => (ok (makeTransient σ o k), none)
   | .mtd o => (makeTransientToDetached σ o, none)
   | .setpk o k => (setPk σ o k true, none)
-  | .merge o => merge σ o
-  | .get k => get σ k
+  | .merge o => let (r, x) := merge σ o; (r, some x.toList)
+  | .get k => let (r, x) := get σ k; (r, some x.toList)
   | .flush => (flush σ, none)
   | .commit => (commit σ, none)
   | .rollback => (rollback σ, none)
@@ -926,11 +982,18 @@ def step (σ : Sess) : Op → R × Option Oid
   | .nrollback => (nestedRollback σ, none)
   | .close => (ok (close σ), none)
   | .expungeAll => (ok (expungeAll σ), none)
+  | .query pe => let (r, l) := queryAll σ pe; (r, some l)
+  | .refresh o => (refresh σ o, none)
 
 /-- an operation naming an object that does not exist is not executed at all -/
 def opValid (σ : Sess) : Op → Bool
-  | .add o | .delete o | .expunge o | .expire o | .mt o _ | .mtd o | .setpk o _ | .merge o =>
+  | .add o | .delete o | .expunge o | .expire o | .mt o _ | .mtd o | .setpk o _ | .merge o | .refresh o =>
     o < σ.objs.length
   | _ => true
+
+/-- run a history from the empty session: an operation that raises leaves the state it
+    reached (as in Python); an operation naming a non-existent instance is skipped -/
+def run (eoc : Bool) (ops : List Op) : Sess :=
+  ops.foldl (fun σ op => if opValid σ op then (step σ op).1.1 else σ) { eoc := eoc }
 
 end SaVerif.Sess
